@@ -122,6 +122,10 @@ func (node *Node) processUnconfirmedTx(ctx context.Context, tx handlers.TxData) 
 		}
 
 		logger.Info(ctx, "Updating tx state : %s", hash)
+
+		// A proof that is still in the stored state is for a block that was reorganised away
+		// (otherwise this returned above). The tx is unconfirmed again.
+		txState.State.MerkleProof = nil
 	}
 
 	txState.State.Safe = tx.Safe || newlySafe
